@@ -221,10 +221,16 @@ func runPrio2Bubble(sc scenario) result {
 		time.Sleep(200 * time.Nanosecond)
 		synctest.Wait()
 	}
+	// the library's goroutines that still exist at the moment the driver first sees the output closed (the discipline is quiescent
+	// then: every driver operation is followed by synctest.Wait): a terminated discipline must have none
+	atClose := 0
 	take := func() (uint, uint, bool) {
 		select {
 		case v, ok := <-out:
 			if !ok {
+				if !outClosed {
+					atClose = libGoroutines()
+				}
 				outClosed = true
 				return closedMark, 0, false
 			}
@@ -303,6 +309,7 @@ func runPrio2Bubble(sc scenario) result {
 		case _, ok := <-out:
 			if !ok {
 				outClosed = true
+				atClose = libGoroutines()
 			} else {
 				closedFlag = -7 // an item appeared that len() did not show: impossible
 			}
@@ -365,7 +372,7 @@ func runPrio2Bubble(sc scenario) result {
 		res.vals = append(res.vals, "no-termination")
 	}
 	swallow()
-	res.vals = append(res.vals, "goroutines", fmt.Sprint(libGoroutines()))
+	res.vals = append(res.vals, "goroutines", fmt.Sprint(max(libGoroutines(), atClose)))
 	return res
 }
 
